@@ -1,7 +1,24 @@
-//! C36 — not implemented yet.
+//! C36 — value encodings at external boundaries are lossless and standard.
+//!
+//! Sub-checks (one module each under `c36/`):
+//! * `svlogic` — `Vec<SvLogicVecVal>::from(&Value)`, `Value::from(&[SvLogicVecVal])`
+//!   and the `cosim_set` / `cosim_get` DPI entry points against IEEE 1800
+//!   Annex H (per bit (aval,bval): 0→(0,0) 1→(1,0) Z→(0,1) X→(1,1)).
+//! * `wave`    — waveform dumps (VCD/FST) record the values the simulator
+//!   holds: NOT WRITTEN YET.  Add `mod wave;` below, give it a
+//!   `pub fn run(ctx: &Ctx)` that only calls `ctx.run / ctx.record / ctx.note /
+//!   ctx.assume` (no `ctx.finish`), and call it from `run` next to `svlogic`.
+
 use vcore::Ctx;
 
-pub fn run(_ctx: &Ctx) {
-    println!("INCONCLUSIVE property=C36: check not implemented");
-    std::process::exit(2);
+mod svlogic;
+// mod wave;
+
+pub fn run(ctx: &Ctx) {
+    svlogic::run(ctx);
+    // wave::run(ctx);
+    ctx.finish(
+        "exploration",
+        "svlogic: every width 1..300 with all-0/all-1/all-X/all-Z and single-bit walks (enumerated), then generated 4-state values with widths around multiples of 32 over-weighted, through the two From impls and through cosim_set/cosim_get of the real cdylib; non-trivial = width > 64 or an X/Z bit present; distinct by (width, value)",
+    );
 }
